@@ -333,8 +333,8 @@ def run_props():
     cids = {X.class_key(c): i + 1 for i, c in enumerate(classes)}
     decls = []
     for c in classes:
-        if X.class_key(c).startswith('soapenvelope.'):
-            continue
+        if X.class_key(c).startswith('soapenvelope.') or c is X.mex_types.Metadata:
+            continue        # SOAP envelope: not in the anchors; mex Metadata tells its sections apart by Dialect in its own from_node
         try:
             for name, p in X.class_props(c):
                 decls.append((c, name, p))
